@@ -60,7 +60,8 @@ Virt == /\ Is("virt")
         /\ (Ev.ssuf > 0 => SuffixPre(L, Ev.ssuf))
         /\ hs' = <<>> /\ UNCHANGED <<L, FD, FK, exp>>
 
-SeqOfFrag(f, sseq) == <<f[1], f[2], [j \in 1..Len(f[3]) |-> <<IF sseq > 0 THEN sseq ELSE f[3][j][1], f[3][j][2], f[3][j][3], f[3][j][4]>>]>>
+SeqOfFrag(f, sseq) == <<f[1], f[2], [j \in 1..Len(f[3]) |-> <<IF sseq > 0 THEN sseq ELSE f[3][j][1], f[3][j][2],
+                                                            IF vp.ssuf > 0 /\ f[3][j][3] > 0 THEN vp.ssuf ELSE f[3][j][3], f[3][j][4]>>]>>
 VFrags(F) == LET c == ClipFrags(F, vp.vlo, VUp(vp)) IN [i \in 1..Len(c) |-> SeqOfFrag(c[i], vp.sseq)]
 Open == /\ Is("open") /\ ~Has(Ev.h)
         /\ Put(Ev.h, [t |-> Ev.t,
